@@ -29,11 +29,11 @@ end
 
 theorem group_kind_facts {T : Array PNode} {i : Info} {ds : DList} {g b' : Nat}
     (hl : LayN T (.group i ds) g b') (hw : gW (.group i ds) = true) :
-    isGroupK T[g]!.info.c.kind = true ∧ g + T[g]!.a = b' ∧ g + T[g]!.b = b' + ds.length ∧ g < b' ∧
-      LayL T ds b' (b' + ds.length) ∧ gWL ds = true := by
+    isGroupK T[g]!.info.c.kind = true ∧ (0 < ds.length → g + T[g]!.a = b') ∧ T[g]!.b = T[g]!.a + ds.length ∧
+      (0 < ds.length → g < b') ∧ LayL T ds b' (b' + ds.length) ∧ gWL ds = true := by
   simp only [LayN] at hl
   simp only [gW, Bool.and_eq_true] at hw
-  exact ⟨by rw [hl.1]; exact hw.1, hl.2.1, hl.2.2.1, hl.2.2.2.1, hl.2.2.2.2, hw.2⟩
+  exact ⟨by rw [hl.1]; exact hw.1, fun h => (hl.2.2.1 h).1, hl.2.1, fun h => (hl.2.2.1 h).2, hl.2.2.2, hw.2⟩
 
 theorem nongroup_kind {T : Array PNode} {d : DNode} {g b' : Nat} (hl : LayN T d g b') (hw : gW d = true)
     (hd : ∀ i ds, d ≠ .group i ds) : isGroupK T[g]!.info.c.kind = false := by
@@ -75,6 +75,7 @@ theorem first_eq (T : Array PNode) : ∀ (d : DNode) (g b' fuel : Nat), LayN T d
         simp only [LayL, DList.length] at h5
         simp only [gWL, Bool.and_eq_true] at h6
         have hab : T[g]!.a < T[g]!.b := by omega
+        have h2 := h2 (by simp [DList.length])
         simp only [first, h1, hab, decide_true, Bool.and_self, if_true, firstL, h2, DList.length]
         exact first_eq T d1 b' _ f h5.1 h6.1 (by omega)
 end
@@ -346,10 +347,14 @@ theorem itemA_eq (T : Array PNode) (d d' : DNode) (x bx bx' : Nat) (hl : LayN T 
     simp only [hk]
     split
     · have : T[x]!.b - T[x]!.a = ds.length := by omega
-      rw [h2, this]
-      simp only [descT] at hb
-      have := descL_eq ds
-      exact createEdges_eq T _ ds bx (bx + ds.length) h5 h6 (by omega)
+      rw [this]
+      cases ds with
+      | nil => simp [DList.length, createEdges]
+      | cons d1 r1 =>
+        rw [h2 (by simp [DList.length])]
+        simp only [descT] at hb
+        have := descL_eq (.cons d1 r1)
+        exact createEdges_eq T _ _ bx _ h5 h6 (by omega)
     · rfl
 
 theorem firstL_cons (d : DNode) (r : DList) (k base dflt : Nat) : firstL (.cons d r) k base dflt = firstN d k base := rfl
@@ -381,9 +386,13 @@ theorem nodeEdges_eq (T : Array PNode) (d : DNode) (g b' : Nat) (hl : LayN T d g
     obtain ⟨h1, h2, h3, h4, h5, h6⟩ := group_kind_facts hl hw
     simp only [h1, Bool.not_true, Bool.false_eq_true, if_false, nodeEdges]
     have : g + T[g]!.b - (g + T[g]!.a) - 1 = ds.length - 1 := by omega
-    rw [this, h2]
-    simp only [descT] at hb
-    have := descL_eq ds
-    exact groupEdges_eq T ds b' (b' + ds.length) h5 h6 (by omega)
+    rw [this]
+    cases ds with
+    | nil => simp [DList.length, groupEdges]
+    | cons d1 r1 =>
+      rw [h2 (by simp [DList.length])]
+      simp only [descT] at hb
+      have := descL_eq (.cons d1 r1)
+      exact groupEdges_eq T _ b' _ h5 h6 (by omega)
 
 end MythVerif.PiDag
